@@ -143,7 +143,7 @@ def cases(tier, seed):
     out = []
     for i, sc in enumerate(_b_plan(tier)):
         out.append(_with_seed({"engine": "B", "scenario": sc, "seed": seed * 611953 + i * 29 + 7}, i // 2))
-    for i in range(6 if tier == "quick" else 60):
+    for i in range(8 if tier == "quick" else 80):
         out.append({"engine": "N", "idx": i, "seed": seed * 32452843 + i * 31 + 3})
     ns = 12 if tier == "quick" else 200
     for i in range(ns):
@@ -1451,7 +1451,7 @@ def child_sim(p, noise, trace, meta):
 
 N_KINDS = ["hb_stopping", "hb_promotion", "hb_promotion", "hb_stopping", "hb_rush_stopping", "hb_cost_promotion",
            "sync_hb", "dehb", "pbt", "rea", "fifo_random", "hb_pasha"]
-N_TARGETS_PER_CASE = 8
+N_TARGETS_PER_CASE = 6
 
 
 def expand_n_target(spec, j):
@@ -1485,8 +1485,10 @@ def expand_n_target(spec, j):
     return p
 
 
-def neighbour_params(p, rng):
-    """[(label, params)]: schedulers that share all arguments of ``p`` but one (label = the argument that differs)."""
+def neighbour_params(p, rng, first=None):
+    """[(label, params)]: schedulers that share all arguments of ``p`` but one (label = the argument that differs).
+    ``first``: index of the label whose neighbours are created first (the others follow in random order): which
+    near-identical scheduler a process sees FIRST matters for anything memoised per process."""
     kind = p["kind"]
     out = []
 
@@ -1532,6 +1534,12 @@ def neighbour_params(p, rng):
     elif kind == "fifo_random":
         var("max_t", max_t=p["max_t"] + 1)
         var("searcher_options", variant="plain" if p["variant"] != "plain" else "allow_duplicates")
+    if first is not None:
+        labels = sorted({lb for lb, _ in out})
+        fl = labels[first % len(labels)]
+        rest = [nb for nb in out if nb[0] != fl]
+        rng.shuffle(rest)
+        out = [nb for nb in out if nb[0] == fl] + rest
     return out
 
 
@@ -1615,7 +1623,8 @@ def child_neighbours(spec, meta):
     targets = []
     for j in range(spec.get("n_targets", N_TARGETS_PER_CASE)):
         p = expand_n_target(spec, j)
-        nbs = neighbour_params(p, random.Random(p["vt_seed"] + 31))
+        c = spec.get("idx", 0) * N_TARGETS_PER_CASE + j
+        nbs = neighbour_params(p, random.Random(p["vt_seed"] + 31), first=c // len(N_KINDS) + c)
         alone = _in_fork(lambda: run_target(p, None))
         after = _in_fork(lambda: run_target(p, nbs))
         t = {"kind": p["kind"], "error": alone.get("error") or after.get("error")}
@@ -1624,7 +1633,7 @@ def child_neighbours(spec, meta):
             continue
         t.update(alone=alone["calls"], n_suggest=alone["n_suggest"], events=alone["events"], labels=after["labels"],
                  num_brackets=alone.get("num_brackets", 1), constructor_raised=alone.get("constructor_raised"),
-                 suggest_after=after["n_suggest"])
+                 suggest_after=after["n_suggest"], first_label=nbs[0][0])
         d = first_call_diff(alone["calls"], after["calls"])
         if d is None and alone.get("constructor_raised") != after.get("constructor_raised"):
             d = {"index": 0, "api": "constructor", "field": "one_run_raised", "solo": alone.get("constructor_raised"),
@@ -2016,7 +2025,10 @@ def run_engine_n(spec, o):
                           1 for c_ in t["alone"][: d["index"]] if c_.startswith('["suggest"'))})
         # the same scheduler under test inside this long-lived worker process (which has created thousands of other
         # schedulers before), again with its neighbours
-        nbs = neighbour_params(p, random.Random(p["vt_seed"] + 31))
+        c = spec.get("idx", 0) * N_TARGETS_PER_CASE + j
+        nbs = neighbour_params(p, random.Random(p["vt_seed"] + 32), first=c // len(N_KINDS) + c + 3)
+        o.count("neighbour_created_first:" + nbs[0][0])
+        o.count("neighbour_created_first:" + str(t.get("first_label")))
         r = run_target(p, nbs, o)
         o.count("decided:neighbour_run_in_worker_equals_solo_run_in_pristine_process")
         d2 = first_call_diff(t["alone"], r["calls"])
